@@ -470,3 +470,34 @@ def _(v):
         except Exception as ex:
             ok, det = False, repr(ex)[:200]
         v.prove(label + ".unbalanced_has_the_exact_violation_and_is_refused", ok, detail=det)
+
+
+@harness("C05", "analytic_elimination_with_decimal_compositions", functions=["chempy.kinetics.ode:get_odesys.<locals>.linear_dependencies", "chempy.kinetics.ode:get_odesys.<locals>.linear_dependencies.<locals>.analytic_solver"], kind="data")
+def _(v):
+    """'any analytic elimination of a concentration offered from them reproduces those invariants', for an accepted system whose compositions are
+    decimals (Fe0.9O3 ...): the composition matrix has rank 1 in the decimals as written, so exactly one concentration can be eliminated and what
+    is offered for it is the element balance; nothing declares a concentration constant. Decided with the matrix written here in rationals"""
+    import warnings
+    import sympy
+    from chempy.chemistry import Reaction, Substance
+    from chempy.reactionsystem import ReactionSystem
+    from chempy.kinetics.ode import get_odesys
+    n = ["Fe0.9O3", "Fe2.7O9", "O9Fe2.7"]
+    with warnings.catch_warnings():
+        warnings.simplefilter("ignore")
+        rs = ReactionSystem([Reaction({n[0]: 3}, {n[1]: 1}, 2.0), Reaction({n[1]: 1}, {n[2]: 1}, 1.0)], [Substance.from_formula(f) for f in n])
+        odesys, extra = get_odesys(rs)
+        y0 = {d: sympy.Symbol("y0_%d" % i) for i, d in enumerate(odesys.dep)}
+        try:
+            offered = extra["linear_dependencies"]()(0, y0, None, sympy)
+        except Exception as ex:
+            v.prove("default_elimination_is_the_element_balance", False, detail=repr(ex)[:200])
+            return
+    A = sympy.Matrix([[3, 9, 9], [sympy.Rational(9, 10), sympy.Rational(27, 10), sympy.Rational(27, 10)]])        # O and Fe over the three oxides
+    ys = list(odesys.dep)
+    inv = A * sympy.Matrix([y - y0[y] for y in ys])
+    ok = len(offered) == A.rank() == 1
+    for yk, expr in offered.items():
+        sub = [e.subs(yk, expr) for e in inv]
+        ok = ok and all(sympy.simplify(sympy.nsimplify(e, rational=True)) == 0 for e in sub) and expr.free_symbols - {yk} >= {y for y in ys if y != yk}
+    v.prove("default_elimination_is_the_element_balance", ok, detail=repr(offered))
